@@ -223,3 +223,16 @@ def f32_overflow(v):
         return False
     except OverflowError:
         return True
+
+
+# ---------------------------------------------------------------------------------------------- high-compatibility names (C17's own text)
+def hc_name_ok(s):
+    """names allowed in high-compatibility mode: one or more of A-Z 0-9 _ -"""
+    import re
+    return re.fullmatch('[A-Z0-9_-]+', s) is not None
+
+
+def enum_member(enum_name, v):
+    """v is the value of a member of the library's enumeration `enum_name` (table read from the installed source)"""
+    from dliswriter.utils import enums
+    return v in [m.value for m in getattr(enums, enum_name)]
